@@ -151,3 +151,99 @@ class FunctorInit(Contract):
                       _zb(self._supplied(interp, self._kwargs[k])))
         zs.append(z3.Not(both))
     return z3.And(*zs) if zs else True
+
+
+# ---------------------------------------------------------------------------
+# Signature.get_value_spec: the lookup every functor call goes through to decide
+# whether a keyword names a parameter.  For signatures of ANY size (unbounded,
+# hence counted as proved): the spec of the first declared parameter of that
+# name; else the value spec of **kwargs if the signature has one; else None --
+# in particular the name of *args is NOT a keyword parameter.
+
+from pyglove.core.typing import callable_signature as _cs   # noqa: E402  pylint: disable=wrong-import-position
+from pyvc import absobj as _absobj                            # noqa: E402  pylint: disable=wrong-import-position
+
+ARG_NAME = z3.Function('arg_name', z3.IntSort(), z3.IntSort())     # Argument id -> name (abstract)
+ARG_SPEC = z3.Function('arg_spec', z3.IntSort(), z3.IntSort())     # Argument id -> value spec id
+
+
+def _arg_lazy(obj, name):
+  if name == 'name':
+    return SInt(ARG_NAME(obj.ghost['id']))
+  if name == 'value_spec':
+    return _absobj.ref(object, ARG_SPEC(obj.ghost['id']))
+  return NotImplemented
+
+
+@register
+class SignatureGetValueSpec(Contract):
+  prop = 'C18'
+  target = 'pyglove.core.typing.callable_signature:Signature.get_value_spec'
+  inline = ('pyglove.core.typing.callable_signature:Signature.named_args',)
+
+  def inputs(self, b):
+    self._args = _absobj.ref_seq(b, 'args', _cs.Argument, _arg_lazy)
+    self._kwonly = _absobj.ref_seq(b, 'kwonlyargs', _cs.Argument, _arg_lazy)
+    self._dynamic = SObj(object, {}, name='varkw_value_spec')
+    varkw = SObj(_cs.Argument, {'name': 'kwargs', 'value_spec': SObj(object, {'schema': SObj(object, {
+        'dynamic_field': SObj(object, {'value': self._dynamic})})})}, name='varkw')
+    self._varargs = _absobj.ref(_cs.Argument, b.int('varargs_id').z, _arg_lazy)
+    s = SObj(_cs.Signature, {'args': self._args, 'kwonlyargs': self._kwonly,
+                             'varargs': b.choice('varargs_kind', [None, self._varargs]),
+                             'varkw': b.choice('varkw_kind', [None, varkw])}, name='self')
+    return dict(self=s, name=b.int('name')), {}
+
+  def setup_policy(self, policy):
+    policy.handlers[('identical',)] = _absobj.identical_handler
+
+  def trace_first_named_match_else_varkw_else_none(self, events, outcome, interp, env):
+    if outcome[0] != 'return':
+      return False
+    res = interp.resolve(outcome[1])
+    s = interp.resolve(env['self'])
+    name = interp.to_z3(env['name'])
+    A, K = self._args, self._kwonly
+    i, j = z3.Ints('gi gj')
+    nm = lambda seq, x: ARG_NAME(z3.Select(seq.arr, x))
+    no_a = z3.ForAll([i], z3.Implies(z3.And(i >= 0, i < A.len), nm(A, i) != name))
+    no_k = z3.ForAll([i], z3.Implies(z3.And(i >= 0, i < K.len), nm(K, i) != name))
+    varkw = interp.resolve(s.fields['varkw'])
+    if res is None:
+      return z3.And(no_a, no_k) if varkw is None else z3.BoolVal(False)
+    if res is self._dynamic:
+      return z3.And(no_a, no_k) if varkw is not None else z3.BoolVal(False)
+    rid = _absobj.ref_id(res)
+    if rid is None:
+      return z3.BoolVal(False)
+    # the result is the spec of *the* first parameter of that name (stated
+    # universally: for every position that is a first match, the result is its
+    # spec) and such a parameter exists
+    first = lambda seq, x: z3.And(x >= 0, x < seq.len, nm(seq, x) == name,
+                                  z3.ForAll([j], z3.Implies(z3.And(j >= 0, j < x), nm(seq, j) != name)))
+    in_a = z3.ForAll([i], z3.Implies(first(A, i), rid == ARG_SPEC(z3.Select(A.arr, i))))
+    in_k = z3.Implies(no_a, z3.ForAll([i], z3.Implies(first(K, i), rid == ARG_SPEC(z3.Select(K.arr, i)))))
+    return z3.And(z3.Not(z3.And(no_a, no_k)), in_a, in_k)
+
+  def replay(self, obligation, m):
+    bad = []
+    def f0(x, *args): return x
+    def f1(x, *args, k=1, **kw): return x
+    def f2(x, y=2): return x
+    for fn in (f0, f1, f2):
+      sig = pg.typing.signature(fn)
+      for name in ('x', 'y', 'k', 'args', 'kw', 'zz'):
+        got = sig.get_value_spec(name)
+        named = {a.name: a.value_spec for a in sig.args + sig.kwonlyargs}
+        if name in named:
+          ok = got is named[name]
+        elif sig.varkw is not None:
+          ok = got is not None
+        else:
+          ok = got is None
+        if not ok:
+          bad.append(f'signature of {fn.__name__}{tuple(a.name for a in sig.args)}: get_value_spec({name!r}) = {got!r}')
+    return dict(outcome='reproduced' if bad else 'not-reproduced', detail='; '.join(bad[:3]) or 'agrees')
+
+  def small_models(self):
+    from pyvc.contracts import Model
+    yield Model({}, {})
